@@ -141,15 +141,25 @@ def run(ctx):
                           {"cfg": job["cfg"], "env": job["env"], "ops": sc[:3] + ["... %d ops ..." % len(sc)] + sc[-3:], "n_ops": len(sc), "first_op": sc[2], "plan": t2.plan})
     # ---- the variable-rate engine: the drain must end and then deliver nothing (watchdog; the VR control skeleton is modelled in C16)
     vrjobs = []
-    for i in range(24 if ctx.quick else 300):
+    for i in range(60 if ctx.quick else 600):
         ir, orr = ctx.rng.choice([(44100, 48000), (48000, 44100), (1, 1), (3, 1), (1.37, 1), (1, 2.5), (16, 1), (5, 1), (100, 3)])
         vrjobs.append({"cfg": {"ir": repr(float(ir)), "or": repr(float(orr)), "recipe": 4, "qflags": 32}, "env": {},
-                       "N": ctx.rng.choice([0, 1, 100, 5000, 20000]), "blk": ctx.rng.choice([1, 100, 1000, 100000]), "ol": ctx.rng.choice([1, 64, 256, 5000])})
+                       "N": ctx.rng.choice([0, 1, 100, 5000, 20000]), "blk": ctx.rng.choice([1, 100, 1000, 100000]), "ol": ctx.rng.choice([1, 64, 256, 5000]),
+                       "moves": ctx.rng.next() if i % 3 else 0})
 
     def vrwork(j):
         N = j["N"]; blk = max(j["blk"], N // 300 + 1); r = cr.io_ratio(j["cfg"])
         ol = max(j["ol"], int(N / r) // 2000 + 1)
-        ops = [cr.create_line(j["cfg"]), "limit %d" % N] + ["feed %d %d 0" % (blk, ol)] * (N // blk + 1) + ["drain %d" % ol, "feed 0 100 0", "feed 0 1 0", "hash"]
+        feeds = ["feed %d %d 0" % (blk, ol)] * (N // blk + 1)
+        if j.get("moves"):
+            # the ratio is moved while streaming (soxr_set_io_ratio through the idiom of soxr.h), also beyond the maximum declared at creation
+            # (the engine then stays on its coarsest stage) and far below it; every call must still return
+            rr = common.Rng(j["moves"])
+            for _ in range(1 + rr.below(4)):
+                at = rr.below(len(feeds) // 2 + 1)         # in the first half: streaming calls follow the move
+                f = 2.0 ** (rr.uniform(0.3, 2.5) if rr.chance(.5) else rr.uniform(-4.0, 0.0))
+                feeds.insert(at, "ratio %r %d" % (r * f, rr.choice([0, 0, 100, 3000])))
+        ops = [cr.create_line(j["cfg"]), "limit %d" % N] + feeds + ["drain %d" % ol, "feed 0 100 0", "feed 0 1 0", "hash"]
         return j, ops, cr.run_trace(exe, ops, j["env"], timeout=30)
     for j, ops, t2 in cr.pmap(vrwork, vrjobs):
         ctx.count("vr_drains_watched")
